@@ -13,6 +13,8 @@ import random
 import re
 import uuid as _uuid
 
+import asyncio
+
 import anyio
 
 from sim.loop import run_sim, ticks, TICK
@@ -23,7 +25,7 @@ LEVEL = "exploration"
 RULE = ("scenario = (supported list, preferred, api) x server answer kind x answer instant around the timeout x 0..3 distractors "
         "x optional duplicate answer; non-trivial = the answer was not simply 'proposed version, immediately' (mismatch, counter-proposal, "
         "malformed, error, silence, boundary timing, distractor or duplicate)")
-PROBES = ["through_real_stdio_client", "answer_exactly_at_timeout", "counter_proposal_accepted", "mismatch_rejected", "malformed_answer", "error_answer",
+PROBES = ["write_stream_backpressure", "reconnect_same_client", "through_real_stdio_client", "answer_exactly_at_timeout", "counter_proposal_accepted", "mismatch_rejected", "malformed_answer", "error_answer",
           "silence", "duplicate_answer", "preferred_not_in_list", "invented_version_accepted"]
 TIERS = {"quick": {"runs": 30000, "wall": 45.0}, "thorough": {"runs": 3000000, "wall": 560.0}}
 ASSUMPTIONS = [
@@ -83,10 +85,16 @@ def generate(rng: random.Random, tier: str) -> dict:
     return {"v": 1, "api": rng.choice(["send_initialize", "tracking", "tracking", "stdio"]), "supported": supported, "preferred": preferred,
             "timeout": timeout, "uuid_seed": rng.getrandbits(40), "mode": rng.choice(["parse_message", "model_validate"]),
             "pre_version": rng.choice([None, None, "2025-06-18", "2024-11-05"]),
+            "reconnect": ({"versions": [rng.choice(REAL) for _ in range(rng.choice([2, 2, 3]))]} if rng.random() < 0.05 else None),
+            "slow_reader": ({"wbuf": rng.choice([0, 0, 1]), "delays": [rng.choice([0, 0, 3]), rng.choice([0, 10, 450, 1300])]} if rng.random() < 0.15 else None),
             "answer": ans, "dup": dup, "events": events}
 
 
 def simplify(scn):
+    if scn.get("slow_reader"):
+        c = copy.deepcopy(scn); c["slow_reader"] = None; yield c
+    if scn.get("reconnect"):
+        c = copy.deepcopy(scn); c["reconnect"] = None; yield c
     if scn["dup"]:
         c = copy.deepcopy(scn); c["dup"] = None; yield c
     if scn["preferred"] is not None:
@@ -112,9 +120,90 @@ def _date_lt_cutoff(v: str) -> bool:
 
 
 def execute(scn: dict) -> dict:
+    if scn.get("reconnect"):
+        return _execute_reconnect(scn)
     if scn["api"] == "stdio":
         return _execute_stdio(scn)
     return _execute_raw(scn)
+
+
+def _execute_reconnect(scn: dict) -> dict:
+    """Two consecutive connections through the SAME StdioClient object, each with a tracked handshake: the batching mode
+    after the second handshake must be the one belonging to the second negotiated version (also when it equals the first)."""
+    import json
+    stdio = importlib.import_module("chuk_mcp.transports.stdio.stdio_client")
+    ini = importlib.import_module("chuk_mcp.protocol.messages.initialize.send_messages")
+    from chuk_mcp.transports.stdio.parameters import StdioParameters
+    from sim.fakes.process import ProcessFactory
+
+    fu = FakeUUID(scn["uuid_seed"])
+    versions = scn["reconnect"]["versions"]
+    st = {"sessions": []}
+
+    async def main(sim):
+        def responder(line: bytes):
+            try:
+                o = json.loads(line)
+            except Exception:
+                return []
+            if isinstance(o, dict) and o.get("method") == "initialize" and "id" in o:
+                res = {"jsonrpc": "2.0", "id": o["id"], "result": {"protocolVersion": o["params"]["protocolVersion"], "capabilities": {},
+                                                                  "serverInfo": {"name": "sim", "version": "1"}}}
+                return [(ticks(2), [json.dumps(res).encode() + b"\n"])]
+            return []
+
+        factory = ProcessFactory(sim, lambda idx, argv, env: {"read_mode": "eager", "responder": responder, "term_latency": ticks(1)})
+        st["factory"] = factory
+        with patched((anyio, "open_process", factory), (_uuid, "uuid4", fu)):
+            client = stdio.StdioClient(StdioParameters(command="sim-child", args=[]))
+            for n_, v in enumerate(versions):
+                rec = {"v": v}
+                st["sessions"].append(rec)
+                async with client:
+                    r, w = client.get_streams()
+                    try:
+                        res = await ini.send_initialize_with_client_tracking(r, w, client=client, timeout=2.0, supported_versions=[v])
+                        rec["negotiated"] = str(res.protocolVersion)
+                    except BaseException as e:  # noqa
+                        rec["error"] = repr(e)[:100]
+                        continue
+                    rec["info"] = client.get_batching_info()
+                    child = factory.children[-1]
+                    child.write_stdout([json.dumps([{"jsonrpc": "2.0", "method": "notifications/message", "params": {"data": f"in-batch-{n_}"}}]).encode() + b"\n"])
+                    got = []
+                    with anyio.move_on_after(0.5):
+                        while True:
+                            got.append(await r.receive())
+                    rec["member_delivered"] = any(getattr(m, "method", None) == "notifications/message" for m in got)
+                    rec["rejected"] = any(b"-32600" in ln for ln in child.lines_in)
+                await anyio.sleep(1.0)
+
+    info = run_sim(main, max_steps=200_000, max_vtime=300.0)
+    sim = info.sim
+    out = {"violations": [], "digest": sim.digest(), "isig": sim.isig() + ":reconnect:" + ",".join(versions), "faults": dict(sim.faults),
+           "probes": dict(sim.probes), "vtime": info.vtime, "steps": info.steps, "harness": list(sim.harness_errors),
+           "nontrivial": True, "history": None}
+    if info.deadlock or info.limit or info.exc is not None:
+        out["harness"].append(f"run did not complete: deadlock={info.deadlock} limit={info.limit} exc={info.exc!r}")
+        return out
+    out["probes"]["reconnect_same_client"] = 1
+    for n_, rec in enumerate(st["sessions"]):
+        v = rec["v"]
+        if "error" in rec:
+            out["violations"].append({"cls": "C03/outcome", "sig": "C03/outcome:reconnect-handshake-failed",
+                                      "msg": f"connection {n_ + 1} (version {v}) through the same StdioClient failed: {rec['error']}"})
+            continue
+        batching = _date_lt_cutoff(v)
+        i_ = rec["info"]
+        if rec["negotiated"] != v or i_["protocol_version"] != v or i_["batching_enabled"] != batching or \
+                rec["member_delivered"] != batching or rec["rejected"] == batching:
+            out["violations"].append({"cls": "C03/tracking", "sig": "C03/tracking:batching-mode-after-reconnect",
+                                      "msg": f"connection {n_ + 1} of {versions}: negotiated {rec['negotiated']}, client reports {i_}, a batch sent afterwards was "
+                                             f"{'delivered' if rec['member_delivered'] else 'not delivered'} / {'rejected' if rec['rejected'] else 'not rejected'}; "
+                                             f"version {v} {'has' if batching else 'has no'} batching"})
+            break
+    out["history"] = {"api": "reconnect", "sessions": st["sessions"]}
+    return out
 
 
 def _execute_stdio(scn: dict) -> dict:
@@ -317,12 +406,28 @@ def _execute_raw(scn: dict) -> dict:
 
     async def main(sim):
         to_client_send, to_client_recv = anyio.create_memory_object_stream(100)
-        from_client_send, _keep = anyio.create_memory_object_stream(100)
+        sr = scn.get("slow_reader")
+        from_client_send, from_client_recv = anyio.create_memory_object_stream(sr["wbuf"] if sr else 100)
         rr = RecRecv(sim, to_client_recv)
         ws = RecSend(sim, from_client_send)
         st["ws"], st["rr"] = ws, rr
         delivered = []
         st["delivered"] = delivered
+        if sr:
+            # the peer takes the client's messages off the wire slowly: send() blocks until it does
+            async def slow_reader():
+                k_ = 0
+                while True:
+                    d_ = sr["delays"][k_] if k_ < len(sr["delays"]) else 0
+                    if d_:
+                        await anyio.sleep(ticks(d_))
+                    try:
+                        await from_client_recv.receive()
+                    except (anyio.EndOfStream, anyio.ClosedResourceError):
+                        return
+                    k_ += 1
+            asyncio.get_running_loop().create_task(slow_reader(), name="slow-reader")
+            sim.fault("write_stream_backpressure")
 
         def deliver(kind, data):
             obj = build_inbound(scn["mode"], data)
@@ -371,7 +476,7 @@ def _execute_raw(scn: dict) -> dict:
             st["outcome"] = ("raise", e)
         st["t_done"] = sim.now()
         st["done_eseq"] = sim.rec("client", "done", st["outcome"][0])
-        await anyio.sleep(2.0)  # quiescence: nothing may be written later
+        await anyio.sleep(2.0 + (ticks(sum(sr["delays"])) if sr else 0.0))  # quiescence: nothing may be written later
 
     with patched((_uuid, "uuid4", fu)):
         info = run_sim(main, max_steps=50_000, max_vtime=100.0)
@@ -412,6 +517,8 @@ def _execute_raw(scn: dict) -> dict:
     deadline = t_w + timeout
     if preferred and preferred not in supported:
         probe("preferred_not_in_list")
+    if scn.get("slow_reader"):
+        probe("write_stream_backpressure")
 
     # the answer the client should act upon: first delivered matching response before the deadline
     first, edge = None, None
